@@ -63,7 +63,7 @@ SELECTS = ['.a', '.b=B', '.k', '(size .arr)=n', '.arr', '.', '(get . "a")=ga', '
            '/B/=rb', '/.a/=ra', '/dup/=rd', '(default /n/ /c/ "none")=rn', '/nosuch/=rx']
 SORTS = ['.a', '.b=desc', '.k=ASC', '.a=DESC', '.k', '(size .arr)=Desc', '.b', '/B/', '/.a/=desc', '/n/']
 GROUPS = ['.k', '(? (= .a 1) "one" "rest")', '.b', '(map .arr .k)']
-SPLITS = ['.arr', '(filter .arr (= .k "x"))', '[10, 20]', '(? (object? .) .arr [., "s"])', '(default .arr [1])']
+SPLITS = ['.arr', '(filter .arr (= .k "x"))', '[10, 20]', '(? (object? .) .arr (push [] . "s"))', '(default .arr [1])']
 SETS = [('x=1', ':x=vx'), ('@m=.a', '@m=vm'), ('y="s"', ':y=vy'), ('@am=(map .arr .a)', '@am=vam')]
 
 def pipeline_cfg(rnd, want_limit=None, allow_group=True, allow_sort=True, allow_unique=True, streaming=False):
